@@ -192,7 +192,7 @@ theorem freshTracked_got {R : Con → Prop} (hZ : ZidFaithful R) (s : St) (hC : 
     simp [SatBy]
   · intro i hi hne
     rw [hfresh]
-    simp [List.getElem?_set, Ne.symm hne, List.getElem?_append_left hi]
+    simp [List.getElem?_append_left hi]
   · intro z hz
     rw [hasr] at hz
     exact tracked_add_reg [] s.fe.constraints (by simp) hC z hz
@@ -253,7 +253,7 @@ theorem getSolverG_spec {R : Con → Prop} (hZ : ZidFaithful R) (s : St) (h : Co
             · intro hc
               exact ⟨((hsem a).mpr hc).1, hc⟩
           · intro i hi hne
-            simp [List.getElem?_set, Ne.symm hne]
+            simp [Ne.symm hne]
           · intro z hz
             rw [hobj, Z3Obj.asserted_addTop, hnames] at hz
             exact tracked_add_reg _ s.fe.constraints hAr hC z hz
